@@ -37,9 +37,12 @@ class Crafter:
 
     def __init__(self, tree):
         self.tree = tree
-        self.cs = tree.cs
         self.keys = tree.keys
         self.rng = tree.rng
+
+    @property
+    def cs(self):
+        return self.tree.cs          # always the tree's current state (the tree may keep growing)
 
     def craft(self, parent_hash, txs=None, others=None, reward_delta=0, reward_value=None, cb_height=None, split=None,
               height=None, timestamp=None, target=None, merkle=None, miner=0, post=None, want_pow=True,
